@@ -102,11 +102,34 @@ def find_twin(a: List[int], b: List[int], x: int) -> bool:
     return True
 
 
+def bare_string_option(s: str, a: List[int]) -> bool:
+    """
+    pre: 1 <= len(s) <= 3 and all(ch in "abxy019_" for ch in s)
+    pre: 1 <= len(a) <= 2 and len(set(a)) == len(a)
+    post: _
+    """
+    opm = hyruns.OptionManager("x")
+    opm.from_cartesian_product(model=s, u=a)
+    combos = [(t["model"], t["u"]) for t in opm.tasks]
+    # a scalar given bare (here a string of up to 3 characters) is ONE value of its option
+    return len(combos) == len(a) and all(m == s for m, _ in combos) and sorted(u for _, u in combos) == sorted(a)
+
+
+def bare_string_twin(s: str, a: List[int]) -> bool:
+    """
+    pre: 1 <= len(s) <= 3 and all(ch in "abxy019_" for ch in s)
+    pre: 1 <= len(a) <= 2 and len(set(a)) == len(a)
+    post: not _
+    """
+    return True
+
+
 CONTRACTS = [
     dict(name='cartesian_product_and_roundtrip', twin='cartesian_product_twin',
          what='OptionManager.from_cartesian_product enumerates every combination once; to_dict/from_dict equal in both directions'),
     dict(name='roundtrip_with_renamed_keys', twin='roundtrip_renamed_twin', what='dictionary round trip with renamed keys'),
     dict(name='inequality_is_detected', twin='inequality_twin', what='managers with different option lists compare unequal'),
+    dict(name='bare_string_option', twin='bare_string_twin', what='a bare string option of 1-3 characters is a single option value'),
     dict(name='find_returns_matching_tasks', twin='find_twin', what='OptionManager.find returns exactly the tasks whose option equals the value',
          timeout={'quick': 30, 'thorough': 240}),
 ]
